@@ -1,7 +1,7 @@
 (* ExprParser.v — src/selection.rs read_getter / parse_function, src/extractor.rs,
    src/variables_extractor.rs, src/selection_extractor.rs, src/input_context_extractor.rs,
    and the option parsers (Selection, Filter, Splitter, Grouper, Sorter, PreSet :: from_str). *)
-From Jawk Require Import Base F64 Json Reader JsonParser Ctx Printer Expr Chain.
+From Jawk Require Import Base F64 Json Reader JsonParser Ctx Printer Fn Expr Chain.
 From Jawk Require Gen.FnTable.
 Local Open Scope N_scope.
 
@@ -122,23 +122,6 @@ Definition parse_input_context (r : reader) : option expr * reader :=
   (option_map EIctx (assoc_bytes_k nb ictx_names), r).
 
 (* ---------- function names ---------- *)
-Definition fn_of_canonical (name : list byte) : fn :=
-  let is (s : list byte) := list_eqb N.eqb name s in
-  if is [103;101;116] then FGet else if is [115;105;122;101] then FSize
-  else if is [63] then FIf else if is [100;101;102;97;117;108;116] then FDefault
-  else if is [124] then FPipe
-  else if is [61] then FEq else if is [33;61] then FNeq
-  else if is [60] then FLt else if is [60;61] then FLte
-  else if is [62] then FGt else if is [62;61] then FGte
-  else if is [97;110;100] then FAnd else if is [111;114] then FOr
-  else if is [110;111;116] then FNot else if is [120;111;114] then FXor
-  else if is [109;97;112] then FMap else if is [102;105;108;116;101;114] then FFilter
-  else if is [102;108;97;116;95;109;97;112] then FFlatMap else if is [102;111;108;100] then FFold
-  else if is [103;114;111;117;112;95;98;121] then FGroupBy
-  else if is [115;111;114;116;95;98;121] then FSortBy
-  else if is [115;101;116] then FSet else if is [100;101;102;105;110;101] then FDefine
-  else if is [64] then FAt else if is [58] then FColon
-  else FOpaque name.
 
 Fixpoint find_function (name : list byte) (tbl : list (list N * list N * N * option N))
   : option (list byte * N * option N) :=
